@@ -492,6 +492,12 @@ func (sc *serverConn) handleStreams() {
 	var reqTimerArmed bool
 	var openStreams int
 
+	// highID is the highest id a request has named, accepted or refused. It is
+	// what the order of stream ids is judged by (RFC 7540 5.1.1). sc.lastID is
+	// not: that is the highest id accepted, the one a GOAWAY promises, and a
+	// refused request must not raise it.
+	var highID uint32
+
 	// curInitialWindow tracks the client's SETTINGS_INITIAL_WINDOW_SIZE, which
 	// is the send window every new stream starts with. It starts at the spec
 	// default of 65535; the client's SETTINGS frames are forwarded to this
@@ -902,8 +908,13 @@ loop:
 				// and then reads the highest id accepted: either it sees this
 				// one, or the mark is seen here and the stream is refused. The
 				// GOAWAY can then never name an id below a request that runs.
-				if fr.Type() == FrameHeaders && fr.Stream() > sc.lastID &&
-					openStreams < int(sc.st.maxStreams) && !wasClosing {
+				//
+				// newRequest is decided first: the store below would otherwise
+				// make the id equal to the latest and the request look out of
+				// order to the refusal that the second look may call for.
+				newRequest := fr.Type() == FrameHeaders && fr.Stream() > highID
+
+				if newRequest && openStreams < int(sc.st.maxStreams) && !wasClosing {
 					atomic.StoreUint32(&sc.lastID, fr.Stream())
 
 					wasClosing = isClosing()
@@ -918,7 +929,7 @@ loop:
 				// DATA on an idle stream came back as a stream error for as
 				// long as the handlers were busy, and was a connection error
 				// (RFC 7540 5.1) the moment one of them returned.
-				if (openStreams >= int(sc.st.maxStreams) || wasClosing) && fr.Type() == FrameHeaders && fr.Stream() > sc.lastID {
+				if (openStreams >= int(sc.st.maxStreams) || wasClosing) && newRequest {
 					if sc.debug {
 						if wasClosing {
 							sc.logger.Printf("Closing the connection. Rejecting stream %d\n", fr.Stream())
@@ -933,7 +944,11 @@ loop:
 					// The stream is closed by that reset, without ever having
 					// been the latest, and what follows the refused HEADERS is
 					// already on its way when the peer learns of the refusal.
+					// The peer has used the id all the same: a lower one that
+					// turns up later is out of order.
 					markClosed(fr.Stream(), true)
+
+					highID = fr.Stream()
 
 					// The frame itself still counts: DATA was sent against the
 					// connection window, and a header block was encoded against
@@ -946,7 +961,7 @@ loop:
 					continue
 				}
 
-				if fr.Stream() < sc.lastID {
+				if fr.Stream() <= highID {
 					if fr.Type() == FrameWindowUpdate {
 						// An id below the highest accepted one that is neither
 						// in the table nor in the closed-stream memory was
@@ -978,6 +993,8 @@ loop:
 				if fr.Type() == FrameHeaders {
 					openStreams++
 					atomic.StoreUint32(&sc.lastID, fr.Stream())
+
+					highID = fr.Stream()
 				}
 
 				sc.createStream(sc.c, fr.Type(), strm)
